@@ -1054,6 +1054,10 @@ class RTCSctpTransport(AsyncIOEventEmitter):
 
         # server
         elif isinstance(chunk, InitChunk) and self.is_server:
+            # a delayed or duplicated INIT must not disturb an existing association
+            if self._association_state != self.State.CLOSED:
+                return
+
             self._last_received_tsn = tsn_minus_one(chunk.initial_tsn)
             self._reconfig_response_seq = tsn_minus_one(chunk.initial_tsn)
             self._remote_verification_tag = chunk.initiate_tag
